@@ -161,6 +161,14 @@ func seedVariants(s string) []string {
 	return out
 }
 
+// repoRoot is the tree under verification: /repo, or $VERIF_REPO.
+func repoRoot() string {
+	if d := os.Getenv("VERIF_REPO"); d != "" {
+		return d
+	}
+	return "/repo"
+}
+
 type propFunc func(c *caseWriter) (rule string, exhaustive bool, extra map[string]int)
 
 // A stream executes the implementation on decoded inputs and records the case.
